@@ -30,6 +30,14 @@ def gen_base(rng):
     if rng.random() < 0.3:
         n = dent(rng, n, f)
     term = rng.randrange(5)
+    if rng.random() < (0.5 if term in (2, 3, 4) else 0.15):
+        # needle triangles: one to three nodes moved to within 1-6 % of an edge length of a neighbour (corner angles of
+        # a few degrees: the cotangent weights of the bending term and the 10/170 degree window of the angle term)
+        n = [list(q) for q in n]
+        for _ in range(rng.choice([1, 2, 3])):
+            a, b, _c = f[rng.randrange(len(f))]
+            t = rng.choice([0.01, 0.03, 0.06])
+            n[a] = [n[b][k] + (n[a][k] - n[b][k]) * t for k in range(3)]
     # the absolute-coordinate signed-volume formula (orientation repair, volume) loses (distance/size)^3 * eps in
     # relative accuracy: at 1e6 sizes from the origin even its sign is rounding noise; cells are placed within 1e3 sizes
     place = rng.choice([0, 0, 1, 10, 1e3]) * size
@@ -102,6 +110,25 @@ def tri_area(p, q, r):
     return 0.5 * norm(cross([q[i] - p[i] for i in range(3)], [r[i] - p[i] for i in range(3)]))
 
 
+def conditioning(o):
+    """1/sin^2 of the smallest corner angle of the live faces, minus its value for a well-shaped mesh: the hinge-angle
+    and corner-angle terms go through acos and cotangents, whose rounding error grows like this on needle triangles"""
+    nodes = [p for u, p in o["nodes"]]
+    smin = 1.0
+    for a, b, cc, ty in o["faces"]:
+        if ty < 0:
+            continue
+        P = [nodes[a], nodes[b], nodes[cc]]
+        for k in range(3):
+            u = [P[(k + 1) % 3][m] - P[k][m] for m in range(3)]; v = [P[(k + 2) % 3][m] - P[k][m] for m in range(3)]
+            lu, lv = norm(u), norm(v)
+            if lu > 0 and lv > 0:
+                smin = min(smin, norm(cross(u, v)) / (lu * lv))
+    if smin <= 0:
+        return 1e12
+    return max(0.0, 1.0 / (smin * smin) - 16.0)      # zero for corner angles above ~14.5 degrees
+
+
 def oracle(c, o, rng):
     nodes = [p for u, p in o["nodes"]]; used = [u for u, p in o["nodes"]]
     F = o["forces"]
@@ -122,7 +149,7 @@ def oracle(c, o, rng):
     cen = [sum(nodes[i][k] for i in live) / len(live) for k in range(3)]
     size = max(norm([nodes[i][k] - cen[k] for k in range(3)]) for i in live)
     maxc = max(abs(x) for i in live for x in nodes[i])
-    tol = 1e-9 + 2e-14 * maxc / size
+    tol = 1e-9 + 2e-14 * maxc / size + 3e-7 * conditioning(o)
     term = TERMS[c["term"]]
     net = [sum(F[i][k] for i in live) for k in range(3)]
     if norm(net) > tol * sumabs:
@@ -153,10 +180,13 @@ def oracle(c, o, rng):
         ct = c["ct"]
         A0 = (ct["isoratio"] * o["V"] * o["V"]) ** (1.0 / 3.0)
         mef = (ct["ka"] / A0) * (o["A"] / A0 - 1.0)
-        h = 1e-6 * size
         for i in rng.sample(live, min(6, len(live))):
             d = [rng.gauss(0, 1) for _ in range(3)]; l = norm(d); d = [x / l for x in d]
             want = 0.0
+            # central difference with a step far below the shortest edge at the node (the area of a needle triangle is only
+            # locally linear over a fraction of its width)
+            emin = min(norm([nodes[j][m] - nodes[i][m] for m in range(3)]) for (a, b, cc, ty) in o["faces"] if ty >= 0 and i in (a, b, cc) for j in (a, b, cc) if j != i)
+            h = 1e-4 * min(emin, 1e-2 * size)
             for (a, b, cc, ty) in o["faces"]:
                 if ty >= 0 and i in (a, b, cc):
                     pp = [list(nodes[j]) for j in (a, b, cc)]; pm = [list(nodes[j]) for j in (a, b, cc)]
@@ -219,10 +249,14 @@ def run(ck):
             ctt = c["ct"]; nl = sum(1 for u, p in o["nodes"] if u)
             natural = abs(bo["P"]) * bo["A"] + (max(f["tension"] for f in ctt["fts"]) * c["size"] + (max(f["bend"] for f in ctt["fts"]) + ctt["angreg"] + ctt["ka"]) / c["size"]) * nl
             sab = max(sab, 1e-9 * natural)
-            maxc = max(abs(x) for u, p in o["nodes"] if u for x in p);
+            maxc = max(abs(x) for u, p in o["nodes"] if u for x in p); cond_i = conditioning(o)
             for fa, fb in zip(bo["forces"], o["forces"]):
                 rf = [sum(M[a][k] * fa[k] for k in range(3)) for a in range(3)]
-                if norm([rf[k] - fb[k] for k in range(3)]) > (1e-7 + 1e-12 * maxc / c["size"]) * sab:
+                # rounding floor: every term is a sum of contributions of its natural size evaluated at absolute coordinates; the
+                # pressure of apply_internal_forces is -K ln(V/V_t) with V from the absolute-coordinate determinant formula, whose
+                # relative error grows with the cube of the distance from the origin in cell sizes
+                floor_ = 1e-14 * (maxc / c["size"]) * natural + (1e-14 * ctt["K"] * (maxc / c["size"]) ** 3 * bo["A"] if c["term"] == 4 else 0.0)
+                if norm([rf[k] - fb[k] for k in range(3)]) > (1e-7 + 1e-12 * maxc / c["size"] + 3e-7 * cond_i) * sab + floor_:
                     fails.append((i, "internal_forces_equivariant(%s)" % TERMS[c["term"]])); break
     ck.cov["evaluations"] = len(cases)
     ck.cov["distinct_nontrivial"] = nontriv
